@@ -189,15 +189,14 @@ private theorem withReader_bridge (parse : Huginn.Tls.Bytes → PR σ) (now : Na
     simp only [toOut, Prog.run, toPOut]
     exact ⟨rel_remove h k, live_remove hl k, by trivial⟩
 
-/-- **One packet.** With related tables and nothing expired, `tlsProg` and `processTcp` produce
-related tables and the same result. -/
-theorem tls_step_bridge (parse : Huginn.Tls.Bytes → PR σ) (now : Nat)
+/-- One packet without the SYN reset: `tlsBody` and `processTcp`. -/
+theorem tlsBody_step_bridge (parse : Huginn.Tls.Bytes → PR σ) (now : Nat)
     (m : TtlMap FlowKey FlowProgs.Reader) (f : Flows FlowKey σ) (h : Rel m f) (hl : Live m now)
     (s : Seg) :
-    Rel ((tlsProg (tlsP parse) s).run now m ()).1 (processTcp parse f ⟨s.src, s.dst⟩ s.payload).1 ∧
-    Live ((tlsProg (tlsP parse) s).run now m ()).1 now ∧
-    ((tlsProg (tlsP parse) s).run now m ()).2.2 = toPOut (processTcp parse f ⟨s.src, s.dst⟩ s.payload).2 := by
-  unfold tlsProg processTcp processTcpT
+    Rel ((tlsBody (tlsP parse) s).run now m ()).1 (processTcp parse f ⟨s.src, s.dst⟩ s.payload).1 ∧
+    Live ((tlsBody (tlsP parse) s).run now m ()).1 now ∧
+    ((tlsBody (tlsP parse) s).run now m ()).2.2 = toPOut (processTcp parse f ⟨s.src, s.dst⟩ s.payload).2 := by
+  unfold tlsBody processTcp processTcpT
   simp only
   by_cases he : s.payload.isEmpty = true
   · simp only [he, if_true, Prog.run, toPOut]; exact ⟨h, hl, by trivial⟩
@@ -231,6 +230,24 @@ theorem tls_step_bridge (parse : Huginn.Tls.Bytes → PR σ) (now : Nat)
           exact ⟨hri, hli, by trivial⟩
       · simp only [ht, Bool.not_false, if_true, Prog.run, toPOut]
         exact ⟨h, hl, by trivial⟩
+
+/-- **One packet.** With related tables and nothing expired, `tlsProg` and `processTcpS` (both with the SYN
+reset) produce related tables and the same result. -/
+theorem tls_step_bridge (parse : Huginn.Tls.Bytes → PR σ) (now : Nat)
+    (m : TtlMap FlowKey FlowProgs.Reader) (f : Flows FlowKey σ) (h : Rel m f) (hl : Live m now)
+    (s : Seg) :
+    Rel ((tlsProg (tlsP parse) s).run now m ()).1 (processTcpS parse f ⟨s.src, s.dst⟩ s.syn s.payload).1 ∧
+    Live ((tlsProg (tlsP parse) s).run now m ()).1 now ∧
+    ((tlsProg (tlsP parse) s).run now m ()).2.2 =
+      toPOut (processTcpS parse f ⟨s.src, s.dst⟩ s.syn s.payload).2 := by
+  unfold tlsProg processTcpS
+  cases hs : s.syn with
+  | true =>
+    simp only [if_true, Prog.run]
+    exact tlsBody_step_bridge parse now _ _ (rel_remove h _) (live_remove hl _) s
+  | false =>
+    simp only [Bool.false_eq_true, if_false]
+    exact tlsBody_step_bridge parse now m f h hl s
 
 /-! ### packet histories within one TTL window -/
 
@@ -276,7 +293,7 @@ theorem run_exp_lb {κ σ' γ ρ Out : Type} [DecidableEq κ] {T : Nat} (p : Pro
     exact hm e (List.mem_filter.1 he).1
   | glob f c _ ih => exact ih _ m _ hm
 
-theorem tlsProg_allTtl {R S : Type} (P : TlsParams R S) (s : Seg) : AllTtl P.ttlMs (tlsProg P s) := by
+theorem tlsBody_allTtl {R S : Type} (P : TlsParams R S) (s : Seg) : AllTtl P.ttlMs (tlsBody P s) := by
   have hw : ∀ r, AllTtl P.ttlMs (tlsWithReader P ⟨s.src, s.dst⟩ s.payload r) := by
     intro r
     unfold tlsWithReader
@@ -284,7 +301,7 @@ theorem tlsProg_allTtl {R S : Type} (P : TlsParams R S) (s : Seg) : AllTtl P.ttl
     · exact .remove _ _ (.ret _)
     · exact .set _ _ _ (.ret _)
     · exact .remove _ _ (.ret _)
-  unfold tlsProg
+  unfold tlsBody
   simp only
   split
   · exact .ret _
@@ -300,16 +317,23 @@ theorem tlsProg_allTtl {R S : Type} (P : TlsParams R S) (s : Seg) : AllTtl P.ttl
         | some r => exact hw r
         | none => exact .ret _
 
+theorem tlsProg_allTtl {R S : Type} (P : TlsParams R S) (s : Seg) : AllTtl P.ttlMs (tlsProg P s) := by
+  unfold tlsProg
+  split
+  · exact .remove _ _ (tlsBody_allTtl P s)
+  · exact tlsBody_allTtl P s
+
 /-- **Packet histories.** For every parser, capacity and packet history whose arrival instants lie
 within one time-to-live window `[a, a + ttl]` (so that nothing expires — C08's recorded
-assumption), the cache-program analyzer reports exactly what `runPackets` (the object of C08's
-flow theorems) reports, packet by packet. -/
+assumption), the cache-program analyzer reports exactly what `runPacketsS` reports, packet by packet
+(`runPacketsS` is `runPackets`, the object of C08's flow theorems, with the SYN reset; the two coincide on
+histories in which no SYN meets a stored reader, `runPacketsS_noSyn` / `runPacketsS_headSyn`). -/
 theorem tls_trace_bridge (parse : Huginn.Tls.Bytes → PR σ) (a : Nat) (tr : List Seg)
     (hwin : ∀ s ∈ tr, a ≤ s.time ∧ s.time ≤ a + (tlsP parse).ttlMs)
     (m : TtlMap FlowKey FlowProgs.Reader) (f : Flows FlowKey σ) (h : Rel m f)
     (hm : ∀ e ∈ m.es, a + (tlsP parse).ttlMs ≤ e.exp) :
     ((tlsAnalyzer (tlsP parse)).runOuts (m, ()) tr).map (·.2) =
-      (runPackets parse f (tr.map (fun s => ((⟨s.src, s.dst⟩ : FlowKey), s.payload)))).map toPOut := by
+      (runPacketsS parse f (tr.map (fun s => ((⟨s.src, s.dst⟩ : FlowKey), s.syn, s.payload)))).map toPOut := by
   induction tr generalizing m f with
   | nil => rfl
   | cons s tr ih =>
@@ -322,7 +346,7 @@ theorem tls_trace_bridge (parse : Huginn.Tls.Bytes → PR σ) (a : Nat) (tr : Li
     have hm' := run_exp_lb (tlsProg (tlsP parse) s) (tlsProg_allTtl _ s) s.time
       (a + (tlsP parse).ttlMs) (by omega) m () hm
     have := ih (fun s' hs' => hwin s' (by simp [hs'])) _ _ h1 hm'
-    simp only [Analyzer.runOuts, Analyzer.step, tlsAnalyzer, List.map_cons, runPackets]
+    simp only [Analyzer.runOuts, Analyzer.step, tlsAnalyzer, List.map_cons, runPacketsS]
     simp only [tlsAnalyzer] at this
     rw [this, h3]
 
@@ -330,7 +354,36 @@ theorem tls_trace_bridge (parse : Huginn.Tls.Bytes → PR σ) (a : Nat) (tr : Li
 theorem tls_trace_bridge_fresh (parse : Huginn.Tls.Bytes → PR σ) (a cap : Nat) (tr : List Seg)
     (hwin : ∀ s ∈ tr, a ≤ s.time ∧ s.time ≤ a + (tlsP parse).ttlMs) :
     ((tlsAnalyzer (tlsP parse)).runOuts ({ cap := cap }, ()) tr).map (·.2) =
-      (runPackets parse { cap := cap } (tr.map (fun s => ((⟨s.src, s.dst⟩ : FlowKey), s.payload)))).map toPOut :=
+      (runPacketsS parse { cap := cap } (tr.map (fun s => ((⟨s.src, s.dst⟩ : FlowKey), s.syn, s.payload)))).map toPOut :=
   tls_trace_bridge parse a tr hwin { cap := cap } { cap := cap } ⟨rfl, .nil⟩ (by intro e he; cases he)
+
+/-- Without SYN segments the reset never fires. -/
+theorem runPacketsS_noSyn {κ : Type} [DecidableEq κ] (parse : Huginn.Tls.Bytes → PR σ) (f : Flows κ σ) (ps : List (κ × Bool × Huginn.Tls.Bytes))
+    (h : ∀ x ∈ ps, x.2.1 = false) :
+    runPacketsS parse f ps = runPackets parse f (ps.map (fun x => (x.1, x.2.2))) := by
+  induction ps generalizing f with
+  | nil => rfl
+  | cons x ps ih =>
+    obtain ⟨k, syn, p⟩ := x
+    have hx : syn = false := h (k, syn, p) (by simp)
+    subst hx
+    simp only [runPacketsS, processTcpS, Bool.false_eq_true, if_false, List.map_cons, runPackets]
+    rw [ih _ (fun y hy => h y (by simp [hy]))]
+
+/-- A connection that opens with its SYN (alone or carrying data) on a table that does not hold its key:
+the reset removes nothing. -/
+theorem runPacketsS_headSyn {κ : Type} [DecidableEq κ] (parse : Huginn.Tls.Bytes → PR σ) (f : Flows κ σ) (k : κ) (syn : Bool)
+    (p : Huginn.Tls.Bytes) (ps : List (κ × Bool × Huginn.Tls.Bytes))
+    (hk : ∀ e ∈ f.entries, e.1 ≠ k) (h : ∀ x ∈ ps, x.2.1 = false) :
+    runPacketsS parse f ((k, syn, p) :: ps) = runPackets parse f (((k, syn, p) :: ps).map (fun x => (x.1, x.2.2))) := by
+  have hrm : f.remove k = f := by
+    unfold Flows.remove
+    have : f.entries.filter (fun e => e.1 ≠ k) = f.entries := by
+      apply List.filter_eq_self.2
+      intro e he; simpa using hk e he
+    rw [this]
+  simp only [runPacketsS, processTcpS, List.map_cons, runPackets]
+  have : (if syn = true then f.remove k else f) = f := by split <;> simp [hrm]
+  rw [this, runPacketsS_noSyn parse _ ps h]
 
 end Huginn.Props.C08Bridge
